@@ -1,0 +1,51 @@
+//go:build verif
+
+package submitter
+
+// Verification hooks (build tag `verif` only, add-only).
+
+// VerifSubmitPrice runs submitPrice synchronously (Start() runs it in a goroutine after taking a submission
+// from the channel and a key id from the idle pool).
+func (s *Submitter) VerifSubmitPrice(pricesSubmission SignalPriceSubmission, keyID string) {
+	s.submitPrice(pricesSubmission, keyID)
+}
+
+// VerifTakeIdleKey takes one key id from the idle pool exactly like Start() does, but without blocking.
+func (s *Submitter) VerifTakeIdleKey() (string, bool) {
+	select {
+	case keyID := <-s.idleKeyIDChannel:
+		return keyID, true
+	default:
+		return "", false
+	}
+}
+
+// VerifIdleKeys returns the key ids currently in the idle pool (the pool is left unchanged; only call it
+// while no submitPrice is running).
+func (s *Submitter) VerifIdleKeys() []string {
+	n := len(s.idleKeyIDChannel)
+	keys := make([]string, 0, n)
+	for i := 0; i < n; i++ {
+		select {
+		case keyID := <-s.idleKeyIDChannel:
+			keys = append(keys, keyID)
+		default:
+		}
+	}
+	for _, keyID := range keys {
+		s.idleKeyIDChannel <- keyID
+	}
+	return keys
+}
+
+// VerifPendingSignalIDs returns the signal ids currently in the pending set shared with the signaller.
+func (s *Submitter) VerifPendingSignalIDs() []string {
+	var ids []string
+	s.pendingSignalIDs.Range(func(k, _ any) bool {
+		if id, ok := k.(string); ok {
+			ids = append(ids, id)
+		}
+		return true
+	})
+	return ids
+}
